@@ -208,6 +208,11 @@ func runC07(r *core.Run) {
 	r.Rule = "for each seed file (generated PNG/JPEG/WebP with and without profiles, the repository's small files, garbage, empty) every prefix length x 4 loaders x terminal {EOF, sticky I/O error, final data together with EOF, final data together with the error} x delivery schedule {all-at-once, 1 byte, seeded random; thorough adds 2,3,7,4095,4096,4097 and mutated seeds}; the stream is drained with buffers of 1, 7 or 32768 bytes, immediately or after up to 3 further loads (deferred read-out, so that recycled buffers show); non-trivial = distinct (loader, seed, cut class, terminal, schedule, metadata-success) other than cuts beyond the needed data with successful metadata"
 	r.Assumptions = []string{"the source is sticky: once it has failed it keeps returning the same error", "faults enter only through the io.Reader handed to Load"}
 	seeds := append(smallSeeds(r.Seed), hostileSpecials()...)
+	for _, s := range smallSeeds(r.Seed) {
+		if s.Truth.Format != "" && len(s.Bytes) > 0 && !strings.HasPrefix(s.Name, "real:") {
+			seeds = append(seeds, genFile{s.Name + "+trailer", append(append([]byte{}, s.Bytes...), []byte("--- 36 bytes that follow the image ---")...), s.Truth})
+		}
+	}
 	if r.Thorough() {
 		rng := core.NewRNG(r.Seed, "C07", "mut")
 		base := len(seeds)
@@ -385,6 +390,66 @@ func runC07(r *core.Run) {
 			outcomes[k] += v
 		}
 	}
+	// Nested use: the stream returned by one Load is partly read and then handed to another Load
+	// (that is what chaining loaders by hand looks like); the second stream must replay exactly the
+	// unread rest.
+	{
+		var nested []struct {
+			j, k   int
+			l1, l2 string
+		}
+		rg := core.NewRNG(r.Seed, "C07", "nested")
+		for ji, j := range jobs {
+			if len(j.seed.Bytes) == 0 || len(j.seed.Bytes) > 8192 {
+				continue
+			}
+			for t := 0; t < 12; t++ {
+				nested = append(nested, struct {
+					j, k   int
+					l1, l2 string
+				}{ji, rg.Intn(len(j.seed.Bytes) + 1), core.Pick(rg, loaderNames), core.Pick(rg, loaderNames)})
+			}
+		}
+		core.ParallelFor(len(nested), 16, func(i int) {
+			n := nested[i]
+			data := jobs[n.j].seed.Bytes
+			first := loadWith(n.l1, src.New(data))
+			r.AddEvals(1)
+			if first.Panic != nil || first.Stream == nil {
+				return // reported by the plain stage
+			}
+			head := make([]byte, n.k)
+			got1, _ := io.ReadFull(first.Stream, head)
+			second := loadWith(n.l2, first.Stream)
+			cs := c07Case{Seed: jobs[n.j].seed.Name, Cut: len(data), Terminal: "eof", Schedule: "all", Loader: n.l1 + " then " + n.l2, ReadBuf: 4096, Deferred: -n.k - 1, File: base64.StdEncoding.EncodeToString(data)}
+			if second.Panic != nil || second.Stream == nil {
+				r.Violate("nested", "nested/panic-or-nil", fmt.Sprintf("%s.Load on the stream returned by %s.Load (after reading %d bytes of it): panic=%v nil-stream=%v", n.l2, n.l1, got1, second.Panic, second.Stream == nil), cs)
+				return
+			}
+			rest, rerr, bounded := src.ReadAllChunks(second.Stream, 4096, int64(len(data))+1<<16)
+			want := data[got1:]
+			if !bounded || rerr != nil || !bytes.Equal(head[:got1], data[:got1]) || !bytes.Equal(rest, want) {
+				r.Violate("nested", "nested/bytes", fmt.Sprintf("%s.Load, read %d bytes, %s.Load on the rest of that stream: the second stream yields %d bytes that %s (expected the %d unread bytes), err %v", n.l1, got1, n.l2, len(rest), firstDiff(rest, want), len(want), rerr), cs)
+			}
+		})
+		r.Obs("nested_load_cases", len(nested))
+	}
+	// an input larger than any internal limit a loader might have (9 MiB), valid and unrecognisable
+	{
+		big := make([]byte, 9<<20+123)
+		core.NewRNG(r.Seed, "C07", "big").Fill(big)
+		for _, pre := range [][]byte{nil, jobs[0].seed.Bytes} {
+			data := append(append([]byte{}, pre...), big...)
+			for _, l := range loaderNames {
+				cs := c07Case{Seed: "9MiB", Cut: len(data), Terminal: "eof", Schedule: "all", Loader: l, ReadBuf: 32768}
+				kind, msg, _ := c07Readout(c07Load(data, cs))
+				r.AddEvals(1)
+				if kind != "" {
+					r.Violate("prefix", l+"/"+kind+"/9MiB", msg, map[string]any{"note": "input = optional valid file + 9 MiB of seeded bytes (VERIF_SEED)", "prefix_seed": jobs[0].seed.Name, "loader": l})
+				}
+			}
+		}
+	}
 	r.Obs("outcomes_terminal_x_metadata_success", outcomes)
 	r.Obs("seed_files", len(jobs))
 	r.Obs("load_units", len(units))
@@ -486,6 +551,26 @@ func replayC07(stage string, raw json.RawMessage) (bool, string, error) {
 	}
 	if cs.Cut > len(data) {
 		return false, "", fmt.Errorf("cut beyond input")
+	}
+	if cs.Deferred < 0 { // nested loads: "<l1> then <l2>", -Deferred-1 bytes read in between
+		parts := strings.SplitN(cs.Loader, " then ", 2)
+		if len(parts) != 2 {
+			return false, "", fmt.Errorf("bad nested case")
+		}
+		k := -cs.Deferred - 1
+		first := loadWith(parts[0], src.New(data))
+		if first.Stream == nil {
+			return true, "nil stream", nil
+		}
+		head := make([]byte, k)
+		got1, _ := io.ReadFull(first.Stream, head)
+		second := loadWith(parts[1], first.Stream)
+		if second.Panic != nil || second.Stream == nil {
+			return true, fmt.Sprintf("panic=%v nil-stream=%v", second.Panic, second.Stream == nil), nil
+		}
+		rest, rerr, _ := src.ReadAllChunks(second.Stream, 4096, int64(len(data))+1<<16)
+		bad := rerr != nil || !bytes.Equal(rest, data[got1:])
+		return bad, fmt.Sprintf("second stream yields %d bytes, expected %d", len(rest), len(data)-got1), nil
 	}
 	// reproduce deferred read-out: make the same load, then `Deferred` further loads, then read
 	l := c07Load(data, cs)
